@@ -17,6 +17,7 @@ import (
 	"encoding/json"
 	"fmt"
 	"math/rand"
+	"os"
 	"reflect"
 	"sort"
 	"strings"
@@ -40,6 +41,7 @@ type recDB struct {
 	real   db.Database
 	bks    map[db.BucketID]*recBucket
 	writes int // Set/Delete calls that came through the db.Bucket interface
+	failAt int // > 0: the Set number failAt (and every later one) fails — an interrupted Flush
 }
 
 type recBucket struct {
@@ -70,6 +72,9 @@ func (d *recDB) bucket(id db.BucketID) *recBucket {
 func (b *recBucket) Get(k []byte) ([]byte, error) { return b.real.Get(k) }
 func (b *recBucket) Has(k []byte) (bool, error)   { return b.real.Has(k) }
 func (b *recBucket) Set(k, v []byte) error {
+	if b.d.failAt > 0 && b.d.writes+1 >= b.d.failAt {
+		return fmt.Errorf("c20: simulated write failure")
+	}
 	b.d.writes++
 	b.content[string(k)] = append([]byte{}, v...)
 	return b.real.Set(k, v)
@@ -1550,6 +1555,62 @@ func (rn *runner) spRound(genuine, foreign [][]byte) {
 	rn.checkDoneComplete("after HandleData")
 }
 
+// runInterrupted is NOT part of the default run (VERIF_C20_INTERRUPTED=1 enables it): the
+// precondition of the theorems — the target is closed under references — is broken by the
+// code's own Flush(true), which writes parents before children.  A sync finishes, Flush(true)
+// is interrupted after k writes (crash / I/O error), the sync is started again on the same
+// database: Resolve finds the root (or another upper node) and does not descend.
+func runInterrupted(seed int64) string {
+	r := rand.New(rand.NewSource(seed))
+	w := newWorld(true)
+	src := &source{objMode: true, d: newRecDB(), tries: map[string]*srcTrie{}, datas: map[string][]byte{}}
+	t := src.genTrie(r, 0, 20+r.Intn(60), &valuePool{}, nil)
+	target := newRecDB()
+	sync := func(rn *runner) {
+		rn.start(ref{0, w.hid(t.root)}, false)
+		for i := 0; i < 100000 && rn.builder.UnresolvedCount() > 0 && rn.fail == ""; i++ {
+			q := rn.requests()[0]
+			rn.deliver(w.pid(src.get(bkIndex(q.bks[0]), q.key)), q.bks[0], "answer")
+		}
+	}
+	mk := func() *runner {
+		rn := &runner{r: r, w: w, src: src, objMode: true, target: target,
+			closure: map[ref]int{}, preload: map[ref]int{}, present: map[ref]int{}, requested: map[ref]bool{},
+			delivered: map[int]bool{}, noCoq: true}
+		rn.builder = merkle.NewBuilder(target)
+		for i, id := range bucketIDs {
+			rn.view[i], _ = rn.builder.Database().GetBucket(id)
+		}
+		return rn
+	}
+	rn1 := mk()
+	sync(rn1)
+	if rn1.fail != "" {
+		return rn1.fail
+	}
+	n := len(rn1.closure)
+	target.failAt = 1 + r.Intn(n-1) + 1
+	if err := rn1.builder.Flush(true); err == nil {
+		return "harness: the interrupted Flush did not fail"
+	}
+	written := target.writes
+	target.failAt = 0
+	// restart: a new builder on the same database, the same trusted root
+	rn2 := mk()
+	for bk := 0; bk < 2; bk++ {
+		for k, v := range target.bucket(bucketIDs[bk]).content {
+			x := ref{bk, w.hid([]byte(k))}
+			rn2.preload[x] = w.pid(v)
+			rn2.present[x] = w.pid(v)
+		}
+	}
+	sync(rn2)
+	if rn2.fail != "" {
+		return fmt.Sprintf("second sync after an interrupted Flush(true) (%d of %d nodes written): %s", written, n, rn2.fail)
+	}
+	return ""
+}
+
 // ---------------------------------------------------------------------------
 
 func gen(c *hxlib.Ctx) {
@@ -1561,6 +1622,13 @@ func gen(c *hxlib.Ctx) {
 			Nontrivial: st.completed && st.accepted >= 5 && st.ignoredForged > 0 && st.ignoredGenuine > 0 && st.dups > 0,
 			Coq:        coq, Key: fmt.Sprint(seed)}
 		c.Emit(cs)
+	}
+	if os.Getenv("VERIF_C20_INTERRUPTED") != "" {
+		for i := 0; i < 10; i++ {
+			seed := c.Rand.Int63()
+			c.Emit(hxlib.Case{Kind: "interrupted-flush", Input: runInput{Seed: seed, Desc: "interrupted"}, Key: fmt.Sprint(seed),
+				OracleErr: runInterrupted(seed)})
+		}
 	}
 	// canary: a forged payload (hash 1, never requested) reported as accepted and stored
 	c.Emit(hxlib.Case{Kind: "canary", Canary: true,
@@ -1574,6 +1642,9 @@ func replay(raw json.RawMessage) string {
 	var in runInput
 	if err := json.Unmarshal(raw, &in); err != nil {
 		return "bad replay input: " + err.Error()
+	}
+	if in.Desc == "interrupted" {
+		return runInterrupted(in.Seed)
 	}
 	_, _, _, oracle, _ := runOne(in.Seed, true)
 	return oracle
